@@ -1,5 +1,5 @@
 (* C07 — brute-force mode reports the exact optimum of every statistic it prints. *)
-From MP Require Import Spec.BFSpec Proofs.BFProofs Props.Examples.
+From MP Require Import Spec.BFSpec LP.Build LP.Run LP.Oracle Proofs.BFProofs Proofs.CrossCheck Props.Examples.
 Local Open Scope list_scope. Open Scope Z_scope.
 
 (* for every well-formed instance, with or without -pc: the run never fails and the printed text is the text of
@@ -35,6 +35,48 @@ Proof.
   generalize 1 as a. induction (Z.to_nat (max_rank M)) as [|n IH]; intro a; simpl; [reflexivity|now rewrite IH].
 Qed.
 Print Assumptions C07_profile_length.
+
+(* the brute-force cross-check: what the integer-programming mode reaches for a criterion, with ANY correct MILP back
+   end, is the optimum brute-force mode prints (the two modes can be compared, as the repository's Evaluations do) *)
+Theorem C07_crosscheck_maxsize_mincost : forall M pc solve out a,
+  wf M = true -> admissible M (mkOpts pc false [(MaxSize, []); (MinCost, [])]) = true -> milp_ok M solve ->
+  run M (mkOpts pc false [(MaxSize, []); (MinCost, [])]) solve = Ok out -> out_status out = Optimal ->
+  bf_run pc M = Ok a ->
+  o_size a = size (matching_of M (val_fun (out_vals out))) /\
+  fst (o_mincost a) = cost_s M (matching_of M (val_fun (out_vals out))).
+Proof. exact crosscheck_maxsize_mincost. Qed.
+Print Assumptions C07_crosscheck_maxsize_mincost.
+
+Theorem C07_crosscheck_profiles : forall M pc solve out a,
+  wf M = true -> milp_ok M solve -> out_status out = Optimal -> bf_run pc M = Ok a ->
+  (admissible M (mkOpts pc false [(Greedy, [])]) = true -> run M (mkOpts pc false [(Greedy, [])]) solve = Ok out ->
+     o_gre a = profile M (matching_of M (val_fun (out_vals out)))) /\
+  (admissible M (mkOpts pc false [(MaxSize, []); (Greedy, [])]) = true ->
+   run M (mkOpts pc false [(MaxSize, []); (Greedy, [])]) solve = Ok out ->
+     o_gremax a = profile M (matching_of M (val_fun (out_vals out)))) /\
+  (admissible M (mkOpts pc false [(MaxSize, []); (Generous, [])]) = true ->
+   run M (mkOpts pc false [(MaxSize, []); (Generous, [])]) solve = Ok out ->
+     o_genmax a = profile M (matching_of M (val_fun (out_vals out)))).
+Proof.
+  intros M pc solve out a Hwf Hok Hst Hbf. repeat split; intros Hadm Hrun.
+  - exact (crosscheck_greedy M pc solve out a Hwf Hadm Hok Hrun Hst Hbf).
+  - exact (crosscheck_maxsize_greedy M pc solve out a Hwf Hadm Hok Hrun Hst Hbf).
+  - exact (crosscheck_maxsize_generous M pc solve out a Hwf Hadm Hok Hrun Hst Hbf).
+Qed.
+Print Assumptions C07_crosscheck_profiles.
+
+Theorem C07_crosscheck_load_balance : forall M pc solve out a,
+  wf M = true -> milp_ok M solve -> out_status out = Optimal -> bf_run pc M = Ok a ->
+  (admissible M (mkOpts pc false [(LoadMaxBal, [])]) = true -> run M (mkOpts pc false [(LoadMaxBal, [])]) solve = Ok out ->
+     o_maxdiff a = max_abs_diff M (matching_of M (val_fun (out_vals out)))) /\
+  (admissible M (mkOpts pc false [(LoadSumBal, [])]) = true -> run M (mkOpts pc false [(LoadSumBal, [])]) solve = Ok out ->
+     o_sumdiff a = sum_abs_diff M (matching_of M (val_fun (out_vals out)))).
+Proof.
+  intros M pc solve out a Hwf Hok Hst Hbf. split; intros Hadm Hrun.
+  - exact (crosscheck_loadmaxbal M pc solve out a Hwf Hadm Hok Hrun Hst Hbf).
+  - exact (crosscheck_loadsumbal M pc solve out a Hwf Hadm Hok Hrun Hst Hbf).
+Qed.
+Print Assumptions C07_crosscheck_load_balance.
 
 Example C07_example :
   wf ex_inst = true /\
